@@ -168,6 +168,7 @@ class Analyzer:
         self.locals_init = {}     # local var id -> init expr
         self.locals_dirty = set()
         self.params = {}
+        self.fmts = []
 
     # ---- events
     def emit_var(self, name, member, use):
@@ -425,6 +426,19 @@ class Analyzer:
             else:
                 ro = False
             self.walk(target, "r" if ro else "rw")
+        if fname in ("snprintf", "sprintf") and len(ch) >= 3:
+            # path construction: remember the format and whether rthread.tid / a `tid` parameter feeds it
+            fi = 3 if fname == "snprintf" else 2
+            if fi < len(ch):
+                f = strip(ch[fi])
+                if f.get("kind") == "ImplicitCastExpr":
+                    f = strip(f["inner"][0])
+                if f.get("kind") == "StringLiteral" and "/" in f.get("value", ""):
+                    try:
+                        lit = json.loads(f["value"])
+                    except ValueError:
+                        lit = f["value"].strip('"')
+                    self.fmts.append(lit)
         if fname is not None:
             self.ev.append(("call", fname))
 
@@ -433,6 +447,7 @@ def analyse(units):
     """events per function name (first definition wins; static helpers of the
     later units are prefixed by nothing: names are unique in libovni)"""
     seqs = {}
+    fmts = []
     for u in units:
         for name, fn in u.fbody.items():
             if name in seqs:
@@ -442,7 +457,8 @@ def analyse(units):
                 if c.get("kind") == "CompoundStmt":
                     a.walk(c)
             seqs[name] = a.ev
-    return seqs
+            fmts += [(name, f) for f in a.fmts]
+    return seqs, fmts
 
 
 def expand(name, seqs, memo, stack):
@@ -502,7 +518,7 @@ def main():
     cargs = [a for a in argv if not a.endswith(".c")]
     units = [Unit(f, clang_ast(clang, cargs, f)) for f in files]
     rt = units[0]
-    seqs = analyse(units)
+    seqs, fmts = analyse(units)
     memo = {}
     api = [n for n, fn in rt.fbody.items() if fn.get("storageClass") != "static" and Unit.in_main(fn)]
     rows = []
@@ -589,6 +605,13 @@ def main():
                  + ("," if i + 1 < len(names) else ""))
     L.append("]")
     L.append("")
+    L.append("/-- Every path the runtime builds: (function, format string of its snprintf, the same as bytes). -/")
+    L.append("def pathFormats : List (String × String × List Nat) := [")
+    for i, (fn_, f) in enumerate(fmts):
+        L.append(f"  ({lean_str(fn_)}, {lean_str(f)}, {lean_list([str(b) for b in f.encode()])})"
+                 + ("," if i + 1 < len(fmts) else ""))
+    L.append("]")
+    L.append("")
     L.append("/-- What the analysis could not resolve (indirect calls); must be empty. -/")
     unres = uniq([x for name in names for x in info[name]["unresolved"]])
     L.append(f"def unresolved : List String := {lean_list([lean_str(x) for x in unres])}")
@@ -604,7 +627,7 @@ def main():
         with open(dump, "w") as f:
             json.dump({"enum": {c: rt.enum_by_name.get(c) for c, _ in ST_NAMES}, "functions": info,
                        "shared_globals": rt_shared, "shared_globals_all": shared, "thread_locals": tlsv,
-                       "api": names}, f, indent=1)
+                       "api": names, "path_formats": fmts}, f, indent=1)
 
 
 if __name__ == "__main__":
